@@ -1,5 +1,7 @@
 import PfVerif.Audit.Tool
 import PfVerif.Props.C18
 import PfVerif.Lemmas.C18Hedge
+import PfVerif.Lemmas.C18Modules
 #audit_module PfVerif.Props.C18
 #audit_module_ns PfVerif.Lemmas.C18Hedge PfVerif.C18Hedge
+#audit_module_ns PfVerif.Lemmas.C18Modules PfVerif.C18Modules
